@@ -184,13 +184,43 @@ c.param('err_msg', KStr)
 c.modifies_self = ['_current_token', 'ghost_pos']
 c.abstract_stmts.append((lambda s: isinstance(s, ast.Assign) and
                          'tok_name' in ast.unparse(s), 'error-message text'))
-c.local_kinds = {'actual_type_name': KStr}
-c.skip_proof = 'isinstance dispatch on str/int of an opaque argument: bounded (bC03/bC16)'
-c.kind = 'assumed'
+c.local_kinds = {'actual_type_name': KStr, 'actual_value': KStr, 'received': KStr}
+c.require('expected_is_a_token_text_or_a_token_type', lambda x: z3.Or(
+    sym.tag_of(x.a.expected.e) == sym.TAG['str'], sym.tag_of(x.a.expected.e) == sym.TAG['int']))
+
+
+def _val_eq(a, b):
+  return sym.ufun('val_eq', sym.Val, sym.Val, sym.BoolS)(a, b)
+
+
+_s = z3.Const('s!ex', sym.Str)
+_n = z3.Int('n!ex')
+c.assume_entry('expected_compares_like_the_builtin_it_is', lambda x: z3.And(
+    sym.forall([_s], _val_eq(sym.val_of_str(_s), x.a.expected.e) ==
+               (sym.val_of_str(_s) == x.a.expected.e), patterns=[sym.val_of_str(_s)]),
+    sym.forall([_n], _val_eq(sym.val_of_int(_n), x.a.expected.e) ==
+               (sym.val_of_int(_n) == x.a.expected.e), patterns=[sym.val_of_int(_n)])),
+    '`expected` is a str or int literal at every call site: == against a token text / type is '
+    'value equality (no user-defined __eq__)')
+
+
+def _tok_matches(t, expected):
+  """The token is the expected text (str) / has the expected type (int)."""
+  return z3.If(sym.tag_of(expected) == sym.TAG['str'],
+               sym.to_val(t.fields['string']) == expected,
+               sym.to_val(t.fields['type']) == expected)
+
+
+c.ensure('the_current_token_matched', lambda x: _tok_matches(cur(x.self_old), x.a.expected.e))
 c.ensure('consumes_exactly_one_token_when_it_matches', lambda x: z3.And(
-    pos(x.self_new) > pos(x.self_old), synced(x.self_new), gen(x.self_new) == gen(x.self_old)))
-c.assumptions.append('_expect(expected, msg) raises SyntaxError and leaves the cursor where it '
-                     'is when the current token does not match, else advances one token')
+    pos(x.self_new) > pos(x.self_old), synced(x.self_new), gen(x.self_new) == gen(x.self_old),
+    sym.forall([i_], z3.Implies(z3.And(pos(x.self_old) < i_, i_ < pos(x.self_new)),
+                                is_blank_error(TOK(gen(x.self_old), i_))))))
+c.raise_case('mismatch', 'SyntaxError', ensures=[
+    ('cursor_stays_when_the_token_does_not_match', lambda x: z3.Implies(
+        z3.Not(_tok_matches(cur(x.self_old), x.a.expected.e)),
+        z3.And(pos(x.self_new) == pos(x.self_old),
+               Token.box(cur(x.self_new)) == Token.box(cur(x.self_old)))))])
 register(c)
 
 # ---- _parse_selector: the raw-text rule (C03) -------------------------------------------------------
@@ -394,6 +424,16 @@ def mk_stmt(cls, *args):
   return sym.ufun('mk_' + cls, *([a.sort() for a in args] + [sym.Val]))(*args)
 
 
+def stmt_class(v):
+  """Which statement class an opaque statement value is an instance of."""
+  return sym.ufun('stmt_class', sym.Val, sym.Str)(v)
+
+
+def stmt_field(cls, name, kind):
+  """Field projection of a statement NamedTuple."""
+  return sym.ufun(f'fld_{cls}_{name}', sym.Val, kind.sort())
+
+
 for _cls, _ps in (('BindingStatement', [('scope', KStr), ('selector', KStr), ('arg_name', KStr),
                                         ('value', KVal), ('location', Location)]),
                   ('IncludeStatement', [('filename', KVal), ('location', Location)]),
@@ -409,6 +449,9 @@ for _cls, _ps in (('BindingStatement', [('scope', KStr), ('selector', KStr), ('a
   c.result = KVal
   c.ensure('is_the_tuple_of_its_fields', (lambda cls, ps: lambda x: z3.And(
       x.result.e == mk_stmt(cls, *[(ps_k.box(sym.coerce(x.a[p], ps_k))) for p, ps_k in ps]),
+      stmt_class(x.result.e) == sym.str_lit(cls),
+      z3.And(*[stmt_field(cls, p, ps_k)(x.result.e) == ps_k.box(sym.coerce(x.a[p], ps_k))
+               for p, ps_k in ps]),
       sym.val_truthy(x.result.e)))(_real, _ps))
   c.raises_only_listed = True
   c.assumptions.append('NamedTuple construction is field-wise (typing.NamedTuple)')
@@ -430,21 +473,110 @@ c.param('keyword', KStr)
 c.param('statement_location', Location)
 c.result = KVal
 c.modifies_self = ['_current_token', 'ghost_pos']
-c.kind = 'assumed'
+c.local_kinds = {'alias': KOpt(KStr), 'module': KStr}
+c.use_ctor_contracts = True
+c.require('keyword_is_import_or_from', lambda x: z3.Or(
+    x.a.keyword.e == sym.str_lit('import'), x.a.keyword.e == sym.str_lit('from')))
+
+
+def _results_of(x, qual):
+  return [e['result'] for e in x.trace if e.get('call') == qual and 'result' in e]
+
+
+def _import_composed(x):
+  """The statement is built from what the sub-parsers returned: `import <sel> [as <id>]` or
+  `from <sel> import <id> [as <id>]`; only meaningful inside the proof of _parse_import (at a
+  call site the callee's trace is not visible and the clause reads True)."""
+  sels = _results_of(x, 'config_parser.py::ConfigParser._parse_selector')
+  ids = _results_of(x, 'config_parser.py::ConfigParser._parse_identifier')
+  if len(sels) != 1:
+    return z3.BoolVal(True)
+  is_from = x.a.keyword.e == sym.str_lit('from')
+  kopt = KOpt(KStr)
+  out = []
+  for n_ids, frm, has_alias in ((0, False, False), (1, False, True), (1, True, False),
+                                (2, True, True)):
+    if len(ids) != n_ids:
+      continue
+    module = sels[0].e
+    if frm:
+      module = world.str_concat(world.str_concat(module, sym.str_lit('.')), ids[0].e)
+    alias = kopt.box(sym.VOpt(kopt, z3.BoolVal(not has_alias),
+                              ids[-1] if has_alias else VStr(sym.str_lit(''))))
+    out.append(z3.Implies(is_from == frm, x.result.e == mk_stmt(
+        'ImportStatement', module, is_from, alias, Location.box(x.a.statement_location))))
+  return z3.And(*out) if out else z3.BoolVal(False)
+
+
 c.ensure('consumes_the_statement', _moved)
-c.assumptions.append('_parse_import returns an ImportStatement for the four import forms '
-                     '[bounded: bC03 statements_recovered]')
+c.ensure('is_composed_of_what_the_sub_parsers_returned', _import_composed)
+c.raise_case('malformed', 'SyntaxError')
 register(c)
+
+# abstract view of parse_scoped_selector (its string semantics are proved in c_strings.py)
+PSS = KTuple(KStr, KStr)
+
+
+def pss(s):
+  return sym.ufun('parse_scoped_selector_result', sym.Str, PSS.sort())(s)
+
+
+c = Contract('config_parser.py::parse_scoped_selector', ['C03'], kind='assumed')
+c.param('scoped_selector', KStr)
+c.result = PSS
+c.ensure('functional', lambda x: PSS.box(x.result) == pss(x.a.scoped_selector.e))
+c.may_raise_other = True
+c.assumptions.append('abstract view of parse_scoped_selector: a function of its argument (its '
+                     'string semantics are the subject of c_strings.py)')
+register(c)
+
+world.INLINE_CMS.add('config_parser.py::ConfigParser._block_scope')
 
 c = _parser_contract('_parse_binding_block', ['C03', 'C16'])
 c.param('scoped_selector', KStr)
 c.param('block_location', Location)
 c.result = KTuple(KVal, KList(KVal))
 c.modifies_self = ['_current_token', 'ghost_pos', '_within_block']
-c.kind = 'assumed'
+c.local_kinds = {'bindings': KList(KVal)}
+c.use_ctor_contracts = True
+
+
+def _hdr(x):
+  t = PSS.unbox(pss(x.a.scoped_selector.e))
+  return t.items[0].e, t.items[1].e
+
+
+def _is_member_of_header(x, b):
+  scope, selector = _hdr(x)
+  return z3.And(stmt_class(b) == sym.str_lit('BindingStatement'),
+                stmt_field('BindingStatement', 'scope', KStr)(b) == scope,
+                stmt_field('BindingStatement', 'selector', KStr)(b) == selector)
+
+
+def _members_ok(x, lst):
+  return sym.forall([i_], z3.Implies(z3.And(0 <= i_, i_ < lst.len),
+                                     _is_member_of_header(x, lst.arr[i_])),
+                    patterns=[lst.arr[i_]])
+
+
 c.ensure('consumes_the_block', lambda x: z3.And(_moved(x), sym.val_truthy(x.result.items[0].e)))
-c.assumptions.append('_parse_binding_block returns the header and its members, each carrying '
-                     'the scope and selector of the header [bounded: bC03 statements_recovered]')
+c.ensure('header_is_the_parsed_scoped_selector_at_the_block_location', lambda x: (
+    x.result.items[0].e == mk_stmt('BlockDeclaration', _hdr(x)[0], _hdr(x)[1],
+                                   Location.box(x.a.block_location))))
+c.ensure('every_member_carries_the_scope_and_selector_of_the_header',
+         lambda x: _members_ok(x, x.result.items[1]))
+c.ensure('stops_at_the_dedent_that_closes_the_block',
+         lambda x: cur(x.self_new).fields['type'].e == toktype('DEDENT'))
+c.ensure('block_mode_is_left', lambda x: z3.Not(x.self_new.fields['_within_block'].e))
+c.exc_ensure('block_mode_is_left_when_a_member_is_malformed', lambda x: z3.Implies(
+    z3.Not(x.self_old.fields['_within_block'].e), z3.Not(x.self_new.fields['_within_block'].e)))
+c.raise_case('malformed', 'SyntaxError')
+c.loop(('self._current_token.type != tokenize.DEDENT', None), [
+    Clause('cursor_in_sync_and_forward', lambda x, k: z3.And(
+        synced(x.env.self), gen(x.env.self) == gen(x.self_old),
+        pos(x.env.self) > pos(x.self_old), x.env.self.fields['_within_block'].e)),
+    Clause('members_so_far_carry_the_header', lambda x, k: _members_ok(x, x.env.bindings))],
+    havoc=['self._current_token', 'self.ghost_pos'])
 register(c)
 
 c = _parser_contract('parse_statement', ['C03', 'C16'])
